@@ -41,7 +41,7 @@ META = dict(
                  "non-uniform length->cells rule (docstring of _real_length_to_grid_size): an edge within 1e-6*min_spacing of the end coordinate, else the first edge at or beyond it, clamped to the axis"],
     outside="constraint graphs other than the listed templates and more than 4 objects; symmetry reduction; random offsets; objects whose "
             "shape is derived from geometry (spheres, cylinders); QuasiUniformGrid policy resolution; float round-off at snapping ties",
-    bounds=dict(quick=dict(cells_active_axis=6, other_axes=3, templates="see case names"), thorough=dict(cells_active_axis=[6, 7], other_axes=3, templates="see case names")),
+    bounds=dict(quick=dict(cells_active_axis=6, other_axes=3, templates="see case names"), thorough=dict(cells_active_axis=[6, 7, 8], other_axes=3, templates="see case names")),
     timeout_ms=dict(quick=30000, thorough=120000),
 )
 
@@ -471,11 +471,23 @@ def _V(spec_shape):
 def templates(tier):
     """name -> spec.  Active axis 0; axes 1, 2 have 3 cells and are either left to the extension step or pinned."""
     T = {}
-    N = 6
+    _templates_for(T, 6, "", True)
+    if tier != "quick":
+        # the same graphs on an 8-cell axis (thorough only): a subset whose numeric ranges scale with N
+        T8 = {}
+        _templates_for(T8, 8, "-N8", False)
+        for k in ("chain-pos", "chain-pos-nonuniform", "fan", "gridcoord-gridmargin", "extend-to-object", "realshape-realpos", "mixed-coords", "symbolic-anchors",
+                  "unconstrained", "pos-to-extended", "ext-to-extended", "overdetermined-shape-vs-coords", "overdetermined-shape-vs-coords-pinned"):
+            T[k + "-N8"] = T8[k + "-N8"]
+    return T
+
+
+def _templates_for(T, N, suffix, quick_default):
     L = float(N * H)  # physical length of axis 0
 
     def add(name, objects, constraints, grid="uniform", shape=(N, 3, 3), quick=True, pinned=None):
-        spec = dict(name=name, objects=[_V(shape)] + objects, constraints=constraints, grid=grid, shape=shape, quick=quick)
+        name = name + suffix
+        spec = dict(name=name, objects=[_V(shape)] + objects, constraints=constraints, grid=grid, shape=shape, quick=quick and quick_default)
         if pinned:
             pin(spec, pinned)
         T[name] = spec
@@ -522,7 +534,7 @@ def templates(tier):
     add("unconstrained", [obj("A"), obj("B", gshape=(2, None, None)), obj("C", gshape=(1, None, None))], [c_pos("C", "A", (0,), (0.0,), (0.0,), margins=(R("m", -2.0, 2.0),))])
     # 13 over-determined systems: a position constraint next to two grid coordinates (consistent only for some values)
     add("overdetermined-pos-vs-coords", [obj("A", gshape=(2, None, None)), obj("B", gshape=(2, None, None))],
-        [c_pos("A", "B", (0,), (0.0,), (0.0,), margins=(R("m", -1.0, 1.0),)), c_grid("A", (0,), ("-",), (I("ga", 0, N - 2),)), c_grid("B", (0,), ("-",), (I("gb", 0, N - 2),))])
+        [c_pos("A", "B", (0,), (0.0,), (0.0,), margins=(R("m", -1.0, 1.0),)), c_grid("A", (0,), ("-",), (I("ga", 0, 3),)), c_grid("B", (0,), ("-",), (I("gb", 1, 4),))])
     add("overdetermined-pos-vs-2coords", [obj("A", gshape=(2, None, None)), obj("B")],
         [c_pos("A", "B", (0,), (0.0,), (0.0,), margins=(R("m", -1.0, 1.0),)), c_grid("A", (0,), ("-",), (I("ga", 0, 2),)), c_grid("B", (0,), ("-",), (I("gb", 0, 1),)),
          c_grid("B", (0,), ("+",), (I("gb1", 3, 4),))])
@@ -546,7 +558,9 @@ def templates(tier):
         [c_ext("B", "A", 0, "+", offset=R("off", -1.0, 1.0)), c_grid("B", (0,), ("-",), (0,)), c_grid("B", (0,), ("+",), (I("g1", 1, 4),)), c_grid("A", (0,), ("-",), (I("g", 2, 4),)),
          c_grid("A", (0,), ("+",), (I("ga1", 4, N),))], pinned=["A", "B"])
     # 17 real position next to coordinates (size only known from the coordinates)
-    add("overdetermined-realpos", [obj("A", rpos=(R("x", -2.0, 2.0), None, None))], [c_grid("A", (0,), ("-",), (I("g0", 0, N),)), c_grid("A", (0,), ("+",), (I("g1", 0, N),))])
+    # (removed) "overdetermined-realpos": a partial_real_position *attribute* next to two explicit coordinates is ignored by the
+    # resolver.  The property statement lists the constraint kinds (position, size, extension, grid/real coordinate), not
+    # object attributes, so demanding it here asked for more than the statement says (harness correction, see DESIGN.md).
     # 18 position relative to an object that is itself only resolved by the extension step
     add("pos-to-extended", [obj("A"), obj("B", gshape=(2, None, None))], [c_pos("B", "A", (0,), (-1.0,), (-1.0,), margins=(R("m", -1.0, 4.0),))])
     # 18b extension / position relative to an object that is only resolved by the extension step, next to other constraints
